@@ -1364,3 +1364,80 @@ def c14_corr(res, exe, driver, tier, seed, tmp):
                 "and one Undo after a completion accepted by a motion the pre-completion text.")
     for c, impl, model, raw in out[:3]:
         res.samples.append({"keys": c.keys, "impl": " ## ".join(impl)[:400]})
+
+
+# ---------------------------------------------------------------- C17: no crash, no wedge
+
+def c17_text_cases(tier, seed):
+    """plain text typed ahead in one or few writes, then Enter: every key that arrived must have taken effect"""
+    rng = random.Random(seed * 1709 + 29)
+    n = 600 if tier == "thorough" else 80
+    cases = []
+    for _ in range(n):
+        text = p_tty.rand_text(rng, 1, 40, ["a", "b", " ", "é", "日", "😀", "x", ",", "(", ")", "q"])
+        parts, i = [], 0
+        while i < len(text):
+            k = rng.randint(1, 12)
+            parts.append(text[i:i + k].encode("utf-8"))
+            i += k
+        if rng.random() < 0.5:
+            parts[-1] += b"\r"
+        else:
+            parts.append(b"\r")
+        mode = rng.choice(["emacs", "vi"])
+        c = Case(list(text) + ["Enter"], mode=mode, timeout=0 if mode == "vi" else rng.choice(["none", 0]), prompt="> ",
+                 chunks=parts, printer=rng.random() < 0.5, helper=rng.random() < 0.3, cols=rng.choice([80, 20]),
+                 meta={"text": text, "highlight": 1} if rng.random() < 0.2 else {"text": text})
+        if "highlight" in c.meta:
+            c.helper = True
+        cases.append(c)
+    return cases
+
+
+def c17_corr(res, exe, driver, tier, seed, tmp):
+    cases = p_tty.c17_cases(tier, seed)
+    out = run_tty_cases(res, exe, driver, cases, tmp, "junk", compare_output=False)
+    tcases = c17_text_cases(tier, seed)
+    out2 = run_tty_cases(res, exe, driver, tcases, tmp, "typeahead", compare_output=False)
+    stats = {"reads": 0, "panic": 0, "wedged": 0, "driver_timeout": 0, "results": {}, "with_signals": 0, "typeahead_lines": 0}
+    for (c, impl, model, raw) in out + out2:
+        rl = [l for l in raw["obs"] if l.startswith("R ")]
+        stats["reads"] += len(rl)
+        if c.meta.get("events"):
+            stats["with_signals"] += 1
+        for l in rl:
+            k = l.split(":")[0]
+            stats["results"][k] = stats["results"].get(k, 0) + 1
+        line = c.model_line(c.chunks if c.chunks is not None else p_tty.chunks_of(c.keys))
+        if any(l == "R panic" for l in rl):
+            stats["panic"] += 1
+            res.oracle_failures.append({"stream": "junk", "case": line, "keys": c.keys, "events": c.meta.get("events"),
+                                        "why": "panic: a read panicked (caught by the child's catch_unwind)"})
+        elif raw["wedged"] or "timeout" in raw["statuses"]:
+            stats["wedged"] += 1
+            res.oracle_failures.append({"stream": "junk", "case": line, "keys": c.keys, "events": c.meta.get("events"),
+                                        "why": "wedged: the child stopped consuming input / did not finish after the hang-up (statuses %s)" % raw["statuses"][-4:]})
+        elif "S done" not in raw["obs"] or len(rl) != c.reads:
+            res.oracle_failures.append({"stream": "junk", "case": line, "keys": c.keys, "events": c.meta.get("events"),
+                                        "why": "no result: %d results for %d reads" % (len(rl), c.reads)})
+        res.nontrivial.add(line)
+    for (c, impl, model, raw) in out2:
+        rl = [l for l in raw["obs"] if l.startswith("R ")]
+        want = "R line:" + enc([ord(ch) for ch in c.meta["text"]])
+        stats["typeahead_lines"] += 1
+        if not rl or rl[0] != want:
+            res.oracle_failures.append({"stream": "typeahead", "case": c.model_line(c.chunks), "keys": c.keys,
+                                        "why": "keys lost: typed %r in %d writes then Enter, the read returned %s" % (
+                                            c.meta["text"], len(c.chunks), rl[:1])})
+    res.distribution.update({"oracle": stats, "junk_scripts": len(cases), "typeahead_scripts": len(tcases)})
+    res.rule = ("junk: chunks of arbitrary bytes (ESC runs, truncated / over-long CSI and SS3 sequences, paste without terminator, "
+                "huge and negative numeric arguments, NUL and C0/C1 controls, invalid and over-long UTF-8, multi-byte text) alone or "
+                "spliced into valid emacs/vi scripts; both modes, 3-6 reads, helpers (completer, hinter, bracket validator, bracket "
+                "highlighter) on and off, external printer on and off, narrow windows; window resizes (SIGWINCH via TIOCSWINSZ) and "
+                "stop/continue of the child at quiescent points in a quarter of the cases. The child runs every read under catch_unwind; "
+                "the driver hangs up at the end. Oracle: no panic, no stall (the child keeps reading until the hang-up and exits), a "
+                "result for every read. States before every key are also compared with the extracted model (not for the cases with "
+                "signals, where a pending prefix key is forgotten by design). typeahead: text written in few large writes then Enter "
+                "must come back complete, with and without a printer.")
+    for c, impl, model, raw in out[:3]:
+        res.samples.append({"keys": c.keys, "impl": " ## ".join(impl)[:300]})
